@@ -197,21 +197,23 @@ theorem process_delivery_partial (executable : Str) (args : List Str) (streams :
 
 /-- set / remove / look up: a variable that was set to a non-empty value is read back, a variable
     that was removed (empty value) yields the default and the removal reports success, other
-    variables are not affected; invalid names (empty, containing `=`) are refused and change nothing -/
+    variables are not affected; invalid names (empty, containing `=`) are refused and change nothing
+    (what a look-up of an invalid name answers is left to the C library and not claimed) -/
 theorem env_set_get (e : PEnv) (k v d : Str) (hk : validName k = true) :
     (setEnvironmentVariable e k v).2 = true ∧
     getEnvironmentVariable (setEnvironmentVariable e k v).1 k d = (if v.isEmpty then d else v) ∧
-    (∀ k', k' ≠ k → getEnvironmentVariable (setEnvironmentVariable e k v).1 k' d = getEnvironmentVariable e k' d) := by
+    (∀ k', validName k' = true → k' ≠ k →
+      getEnvironmentVariable (setEnvironmentVariable e k v).1 k' d = getEnvironmentVariable e k' d) := by
   have hrem := find_envRemove k e
   unfold setEnvironmentVariable getEnvironmentVariable
   simp only [hk, Bool.not_true, Bool.false_eq_true, if_false]
   by_cases hv : v.isEmpty = true
   · simp only [hv, if_true, hrem, if_true]
     refine ⟨trivial, trivial, ?_⟩
-    intro k' hk'; simp [hk']
+    intro k' _ hk'; simp [hk']
   · simp only [hv, if_false, Bool.false_eq_true]
     refine ⟨trivial, by simp, ?_⟩
-    intro k' hk'
+    intro k' _ hk'
     have : (k == k') = false := by simp; exact fun h => hk' h.symm
     simp [List.find?, this, hrem, hk']
 
